@@ -1,0 +1,11 @@
+//go:build verif
+
+package backendpb
+
+import "github.com/AdguardTeam/AdGuardDNS/internal/filter"
+
+// VerifC14ScheduleToInternal runs the unchanged converter of the parental
+// pause schedule for the verification harness.
+func VerifC14ScheduleToInternal(x *ScheduleSettings) (c *filter.ConfigSchedule, err error) {
+	return x.toInternal()
+}
